@@ -432,6 +432,8 @@ func lemma1HitDiscriminator(docNum, normBits uint64) {
 //@ requires w != nil
 //@ assert (*Thesaurus).synonymsListFromOffset#1 : !bm64Empty(newRoaring) ==> bytesEq(row(prevTerm), off(prevTerm), len(prevTerm), row(term), off(term), len(term)) [C13]
 //@ assert (*vellum.Builder).Close#1 : bm64Empty(newRoaring) [C13]
+//@ assert newEnumerator#1 : len(termSynMap) == 0 && newSynonymID == 0 [C13]
+//@ assert (*Thesaurus).synonymsListFromOffset#1 : $except == drops[itrI] && $t == thesauri[itrI] [C13]
 //@ ensures chanClosed(closeCh) && !old(chanClosed(closeCh)) ==> err == seg.ErrClosed [C18]
 //@ loop 1 invariant chanClosed(closeCh) == old(chanClosed(closeCh)) [C18]
 //@ loop 2 invariant chanClosed(closeCh) == old(chanClosed(closeCh)) [C18]
